@@ -3,6 +3,7 @@ package simkit
 import (
 	"fmt"
 	"math"
+	"sort"
 	"strconv"
 	"strings"
 
@@ -548,4 +549,71 @@ func TakeInputModified() string {
 	s := inputModified
 	inputModified = ""
 	return s
+}
+
+// CanonEvents returns the stream with the members of every object sorted by
+// key (then by their value's rendering), recursively. Two folds of the same Go
+// map differ in member order only (Go's map iteration order has no seam);
+// their canonical forms are equal.
+func CanonEvents(evs []Ev) []Ev {
+	out := make([]Ev, 0, len(evs))
+	pos := 0
+	var value func() []Ev
+	value = func() []Ev {
+		if pos >= len(evs) {
+			return nil
+		}
+		e := evs[pos]
+		pos++
+		switch e.K {
+		case KArrStart:
+			res := []Ev{e}
+			for pos < len(evs) && evs[pos].K != KArrEnd {
+				res = append(res, value()...)
+			}
+			if pos < len(evs) {
+				res = append(res, evs[pos])
+				pos++
+			}
+			return res
+		case KObjStart:
+			type member struct {
+				key string
+				evs []Ev
+				str string
+			}
+			var ms []member
+			for pos < len(evs) && evs[pos].K != KObjEnd {
+				m := member{}
+				if evs[pos].K == KKey {
+					m.key = evs[pos].S
+					m.evs = append(m.evs, evs[pos])
+					pos++
+				}
+				m.evs = append(m.evs, value()...)
+				m.str = EventsString(m.evs, 0)
+				ms = append(ms, m)
+			}
+			sort.SliceStable(ms, func(i, j int) bool {
+				if ms[i].key != ms[j].key {
+					return ms[i].key < ms[j].key
+				}
+				return ms[i].str < ms[j].str
+			})
+			res := []Ev{e}
+			for _, m := range ms {
+				res = append(res, m.evs...)
+			}
+			if pos < len(evs) {
+				res = append(res, evs[pos])
+				pos++
+			}
+			return res
+		}
+		return []Ev{e}
+	}
+	for pos < len(evs) {
+		out = append(out, value()...)
+	}
+	return out
 }
